@@ -50,7 +50,10 @@ def nested_fiber(tree, d, shape, default, rank_ids=None):
     else:
         rest_ids = rank_ids[1:] if rank_ids else None
         payloads = [nested_fiber(ch, d - 1, shape[1:] if shape else None, default, rest_ids) for _, ch in tree]
-        f = Fiber(coords, payloads, shape=sh, default=Fiber())
+        # the default of an interior fiber is a template of the next level (as Fiber._splitFiber does with
+        # default=Fiber()), so that an unowned tree knows how deep it is even where it is empty
+        f = Fiber(coords, payloads, shape=sh,
+                  default=nested_fiber([], d - 1, shape[1:] if shape else None, default, rest_ids))
     if rank_ids:
         f.getRankAttrs().setId(rank_ids[0])
     return f
